@@ -8,7 +8,7 @@ from vlib.ref import bip85 as R85
 from vlib.util import call
 
 PROPERTY_ID = "C12"
-OPTIMIZED = ['reject']   # clauses run a second time under `python -O` (assert statements stripped)
+OPTIMIZED = ['reject', 'apps', 'defaults-and-keywords']   # clauses run a second time under `python -O` (assert statements stripped)
 RULE = ("masters from the scalar mixture (constructed and parsed from the reference xprv); indexes {0,1,2^31-1} and "
         "uniform; application parameters enumerated exhaustively (5 word counts, 49 byte counts, 67 password lengths); "
         "oracle = independent BIP85 on own BIP32; the index list actually derived is recorded by a subclassing wrapper")
